@@ -11,7 +11,7 @@ export VERIF_REPO=/tmp/repo-matrix
 git -C /repo worktree remove --force $VERIF_REPO 2>/dev/null; rm -rf $VERIF_REPO
 git -C /repo worktree add --detach $VERIF_REPO HEAD >/dev/null 2>&1 || exit 2
 sed -i "s#=> /repo#=> $VERIF_REPO#" $SNAP/harness/go.mod
-( cd $SNAP/harness && go build -tags verif -o bin/corr . && go run ./cmd/extract -repo $VERIF_REPO -out $SNAP/lean/Clover/Generated/Facts.lean ) || exit 3
+( cd $SNAP/harness && go build -tags verif -o bin/corr . && go run ./cmd/extract -repo $VERIF_REPO -out $SNAP/lean/Clover/Generated/Facts.lean && go run ./cmd/translate -repo $VERIF_REPO -out $SNAP/lean/Clover/Generated/Translated.lean ) || exit 3
 ( cd $SNAP/lean && lake build Clover driver 2>&1 | grep -E "error|completed" )
 related() { # property -> checks worth running against a seed of that property
   case $1 in
